@@ -74,6 +74,18 @@ Module Base.
     map (Z.mul (sgn_of n)) (digits len b (Z.abs n)).
   Definition base (len : nat) (b : Z) (sh ns : list Z) : list Z * list Z :=
     (sh ++ [Z.of_nat len], concat (map (row len b) ns)).
+  (** digits_needed_for_base (dyadic/mod.rs:1853-1869).  [est b n] stands for the floating-point
+      estimate `log as usize + 1`; since the repair dfd90e9 ([fixed] = true) one digit is added when
+      `base.powi(digits) <= |n|` (exact for |n| < 2^53: every intermediate power is <= |n|) *)
+  Definition digits_needed (fixed : bool) (est : Z -> Z -> nat) (b n : Z) : nat :=
+    if n =? 0 then O else
+    let d := est b n in
+    if fixed && (1 <? b) && (b ^ Z.of_nat d <=? Z.abs n) then S d else d.
+  (** `max_row_len = data.iter().map(digits_needed).max().unwrap_or(0)` *)
+  Definition row_len (fixed : bool) (est : Z -> Z -> nat) (b : Z) (ns : list Z) : nat :=
+    fold_right Nat.max O (map (digits_needed fixed est b) ns).
+  Definition base_auto (fixed : bool) (est : Z -> Z -> nat) (b : Z) (sh ns : list Z) : list Z * list Z :=
+    base (row_len fixed est b ns) b sh ns.
   (** `shape.pop().unwrap_or(1)`; row_len 0 gives zeros *)
   Definition anti_base (b : Z) (sh ds : list Z) : list Z * list Z :=
     match rev sh with
@@ -178,12 +190,15 @@ Module Bytes.
   (** encode.rs:438-441: the extra axis is only added when elem_size != 1 *)
   Definition encode (f : fmt) (big : bool) (sh ns : list Z) : list Z * list Z :=
     (if Nat.eqb (width f) 1 then sh else sh ++ [Z.of_nat (width f)], concat (map (enc1 f big) ns)).
-  (** encode.rs:462-484: u8 returns the bytes unchanged; every other format (i8 included) pops
-      the last axis and demands that it equals elem_size *)
-  Definition decode (f : fmt) (big : bool) (sh bs : list Z) : option (list Z * list Z) :=
+  (** encode.rs:462-486: u8 returns the bytes unchanged; the other formats pop the last axis and
+      demand that it equals elem_size -- since the repair 821d336 only when elem_size != 1
+      ([fixed] = true is the current code, false the code before the repair, where i8 also popped) *)
+  Definition decode (fixed : bool) (f : fmt) (big : bool) (sh bs : list Z) : option (list Z * list Z) :=
     if negb (signed f) && Nat.eqb (width f) 1 then Some (sh, bs) else
+    if fixed && Nat.eqb (width f) 1
+    then Some (sh, firstn (Z.to_nat (zprod sh)) (map (dec1 f big) (chunks (length bs) 1 bs))) else
     match rev sh with
-    | [] => Some ([], map (dec1 f big) (chunks (length bs) (width f) bs))   (* zero elements *)
+    | [] => Some ([], map (dec1 f big) (chunks (length bs) (width f) bs))
     | d :: rest =>
         if d =? Z.of_nat (width f)
         then Some (rev rest, firstn (Z.to_nat (zprod (rev rest))) (map (dec1 f big) (chunks (length bs) (width f) bs)))
@@ -579,11 +594,16 @@ Definition tcase_ok (c : tcase) : bool :=
   | TUtf16 cps out => list_beq Z Z.eqb (Utf16.utf16 cps) out
   | TUnUtf16 us out => ol_eqb (Utf16.un_utf16 us) out
   | TBase b sh d osh od =>
-      let len := Z.to_nat (last osh 0) in olz_eqb (Some (Base.base len b sh d)) (Some (osh, od))
+      (* the row length is taken from the implementation; it must be exactly the number of digits
+         the largest entry needs (sufficient: premise of C18_antibase_base; and not longer) *)
+      let len := Z.to_nat (last osh 0) in
+      let m := zmax_list (map Z.abs d) in
+      olz_eqb (Some (Base.base len b sh d)) (Some (osh, od))
+      && (m <? b ^ Z.of_nat len) && ((len =? 0)%nat || (b ^ Z.of_nat (pred len) <=? m))
   | TAntiBase b sh d osh od => olz_eqb (Some (Base.anti_base b sh d)) (Some (osh, od))
   | TBytes sg w big sh d osh od =>
       olz_eqb (Some (Bytes.encode {| Bytes.signed := sg; Bytes.width := w |} big sh d)) (Some (osh, od))
-  | TUnBytes sg w big sh d out => olz_eqb (Bytes.decode {| Bytes.signed := sg; Bytes.width := w |} big sh d) out
+  | TUnBytes sg w big sh d out => olz_eqb (Bytes.decode true {| Bytes.signed := sg; Bytes.width := w |} big sh d) out
   | TBinary v out => ol_eqb (Bin.to_binary_top Bin.cops v) out
   | TUnBinary bs out =>
       match Bin.from_binary_top Bin.cops bs, out with
